@@ -19,6 +19,7 @@ import (
 	"runtime/pprof"
 	"strings"
 	"sync"
+	"time"
 
 	"github.com/go-git/go-git/v6/plumbing"
 	"github.com/go-git/go-git/v6/plumbing/format/packfile"
@@ -97,10 +98,16 @@ func describe(v verdict, r res, dir string) string {
 
 // selectAppliers picks which appliers run on case i: everything cheap on small
 // cases, a rotating subset of the pack-embedded ones otherwise.
-func selectAppliers(i int, small bool, outLen int) []applier {
+func selectAppliers(i int, small, full bool, outLen, baseLen int) []applier {
+	if full && baseLen <= 1<<20 {
+		return registry
+	}
 	var sel []applier
 	sel = append(sel, byGroup("buffer")...)
 	readers := byGroup("reader")
+	if baseLen > 1<<20 { // very large base: one representative per implementation
+		return append(sel, readers[2], byGroup("parser")[6+i%6], byGroup("packfile")[i%8], byGroup("mmap")[i%2])
+	}
 	if small {
 		sel = append(sel, readers...)
 	} else {
@@ -125,8 +132,8 @@ func selectAppliers(i int, small bool, outLen int) []applier {
 		sel = append(sel, pfs[(i+3)%8], pfs[(i+6)%8])
 	}
 	sel = append(sel, byGroup("update")[i%2])
-	if i%8 == 0 {
-		sel = append(sel, byGroup("mmap")[(i/8)%2])
+	if i%24 == 0 {
+		sel = append(sel, byGroup("mmap")[(i/24)%2])
 	}
 	return sel
 }
@@ -141,7 +148,7 @@ func evalCase(mmDir string, i int, cs *dcase) caseResult {
 	}
 	p := &pcase{base: cs.base, delta: cs.delta, level: cs.level, v: v, mmDir: mmDir}
 	var results []res
-	for _, a := range selectAppliers(i, smallCase(cs, v), len(v.out)) {
+	for _, a := range selectAppliers(i, smallCase(cs, v), cs.full, len(v.out), len(cs.base)) {
 		r := a.run(p)
 		results = append(results, r)
 		cr.appliers = append(cr.appliers, a.name)
@@ -201,7 +208,7 @@ func run(c *vf.Ctx) {
 	var cases []dcase
 
 	// 1. round-trip pairs
-	nPairs := c.N(900, 12000)
+	nPairs := c.N(700, 6000)
 	rp := c.Rand("pairs")
 	var diffCases []int
 	for i := 0; i < nPairs; i++ {
@@ -234,7 +241,7 @@ func run(c *vf.Ctx) {
 	}
 	// 2. mutations of go-git's own deltas
 	rm := c.Rand("diffmut")
-	nDiffMut := c.N(1500, 40000)
+	nDiffMut := c.N(1200, 12000)
 	for i := 0; i < nDiffMut && len(diffCases) > 0; i++ {
 		b := cases[diffCases[rm.Intn(len(diffCases))]]
 		if len(b.delta) > 3000 {
@@ -247,7 +254,7 @@ func run(c *vf.Ctx) {
 	}
 	// 3. synthetic structured deltas, plain and mutated
 	rs := c.Rand("synth")
-	nSynth := c.N(5000, 120000)
+	nSynth := c.N(3200, 35000)
 	var truncSeeds []int
 	for i := 0; i < nSynth; i++ {
 		base := pickBase(rs)
@@ -255,7 +262,7 @@ func run(c *vf.Ctx) {
 		mut := "none"
 		if rs.Intn(3) == 0 {
 			d, mut = mutate(rs, d, segs)
-		} else if len(d) <= 48 && len(truncSeeds) < c.N(60, 1200) {
+		} else if len(d) <= 48 && len(truncSeeds) < c.N(50, 400) {
 			truncSeeds = append(truncSeeds, len(cases))
 		}
 		cases = append(cases, dcase{base: base, delta: d, origin: "synth", level: []int{-1, 0}[i%2], shape: shape + "/mut=" + mut})
@@ -271,7 +278,7 @@ func run(c *vf.Ctx) {
 	}
 	// 5. random bytes behind a correct source size
 	rr := c.Rand("random")
-	for i := 0; i < c.N(800, 15000); i++ {
+	for i := 0; i < c.N(600, 5000); i++ {
 		base := pickBase(rr)
 		body := make([]byte, rr.Intn(24))
 		rr.Read(body)
@@ -286,16 +293,47 @@ func run(c *vf.Ctx) {
 		d.Write(leb(300 + 5))
 		d.Write(encodeCopy(nil, 1<<24+12345, 300, "min"))
 		d.Write([]byte{5, 'h', 'e', 'l', 'l', 'o'})
-		cases = append(cases, dcase{base: big, delta: d.Bytes(), origin: "synth", level: -1, shape: "bigbase/copy-offset>16MiB,insert"})
+		cases = append(cases, dcase{base: big, delta: d.Bytes(), origin: "synth", level: 1, shape: "bigbase/copy-offset>16MiB,insert"})
 		d2 := append([]byte{}, d.Bytes()...)
-		cases = append(cases, dcase{base: big, delta: d2[:len(d2)-1], origin: "synth", level: -1, shape: "bigbase/copy-offset>16MiB,insert/trunc-last"})
+		cases = append(cases, dcase{base: big, delta: d2[:len(d2)-1], origin: "synth", level: 1, shape: "bigbase/copy-offset>16MiB,insert/trunc-last"})
+	}
+
+	// the first cases of every model class (git's reject reason / accepted feature set, per origin) get every
+	// applier variant, so that the set of finding keys a seed can hit does not depend on the rotation
+	perModelClass := map[string]int{}
+	for i := range cases {
+		v := gitPatchDelta(cases[i].base, cases[i].delta)
+		if v.undefined || !smallCase(&cases[i], v) {
+			continue
+		}
+		cl := featKey(v)
+		if perModelClass[cl] < c.N(6, 20) {
+			cases[i].full = true
+			c.Count("cases_run_on_every_applier_variant", 1)
+		}
+		perModelClass[cl]++
 	}
 
 	mmDir := c.TempDir("mmap")
 	results := make([]caseResult, len(cases))
+	timing := map[string]time.Duration{}
+	var tmu sync.Mutex
 	vf.Parallel(len(cases), 8, func(i int) {
+		t0 := time.Now()
 		results[i] = evalCase(mmDir, i, &cases[i])
+		if os.Getenv("C06_TIMING") != "" { // diagnostics only, never part of a verdict
+			tmu.Lock()
+			k := fmt.Sprintf("base=%s full=%v", sizeClass(len(cases[i].base)), cases[i].full)
+			timing[k] += time.Since(t0)
+			timing[k+" n"]++
+			tmu.Unlock()
+		}
 	})
+	if os.Getenv("C06_TIMING") != "" {
+		for k, v := range timing {
+			fmt.Println("TIMING", k, v)
+		}
+	}
 
 	// accounting and selection of cases for git confirmation
 	type conf struct {
@@ -305,7 +343,7 @@ func run(c *vf.Ctx) {
 	var confirm []conf
 	perClass := map[string]int{}
 	perKey := map[string]int{}
-	const maxConfirmPerKey = 10
+	const maxConfirmPerKey = 6
 	sampleEvery := 40
 	for i := range cases {
 		cs, cr := &cases[i], &results[i]
@@ -397,6 +435,7 @@ func run(c *vf.Ctx) {
 	c.Extra("git_invocations", gitx.Calls.Load())
 
 	// report confirmed disagreements
+	witnessed := map[string]bool{}
 	for _, cf := range confirm {
 		if cf.sample || !gitOK[cf.idx] {
 			continue
@@ -418,17 +457,21 @@ func run(c *vf.Ctx) {
 			}
 			seen[d.key] = true
 			c.Count("disagreements_confirmed_by_git", 1)
+			if !witnessed[d.key] {
+				witnessed[d.key] = true
+				fmt.Printf("WITNESS key=%s applier=%s base=%s delta=%s :: %s\n", d.key, d.applier, vf.Hex(cs.base), vf.Hex(cs.delta), strings.SplitN(d.detail, "\n", 2)[0])
+			}
 			c.Fail(d.key, fmt.Sprintf("%s on base of %d bytes, delta %s (%s): %s; git (index-pack, confirmed): ok=%v %s", d.applier, len(cs.base), vf.Hex(cs.delta), cs.shape, d.detail, cr.v.ok, cr.v.reason), replay)
 		}
 	}
 
-	c.Floor("cases evaluated", c.Counter("model_accepts")+c.Counter("model_rejects"), c.N(8000, 150000))
-	c.Floor("cases git accepts", c.Counter("model_accepts"), c.N(2000, 30000))
-	c.Floor("cases git rejects", c.Counter("model_rejects"), c.N(3000, 30000))
-	c.Floor("applier runs", c.Counter("applier_runs"), c.N(100000, 1500000))
+	c.Floor("cases evaluated", c.Counter("model_accepts")+c.Counter("model_rejects"), c.N(5500, 50000))
+	c.Floor("cases git accepts", c.Counter("model_accepts"), c.N(1500, 12000))
+	c.Floor("cases git rejects", c.Counter("model_rejects"), c.N(2500, 20000))
+	c.Floor("applier runs", c.Counter("applier_runs"), c.N(80000, 600000))
 	c.Floor("distinct appliers/variants driven", c.SeenCount("appliers"), 38)
 	c.Floor("distinct model reject reasons exercised", c.SeenCount("reject_reasons"), 10)
-	c.Floor("git confirmations", c.Counter("git_confirmations"), c.N(250, 3000))
+	c.Floor("git confirmations", c.Counter("git_confirmations"), c.N(250, 1500))
 	c.Assume("git 2.39.5 index-pack/patch-delta.c is the reference; the delta format has not changed since")
 	c.Assume("deltas whose size headers need a shift >= 64 in get_delta_hdr_size (C undefined behaviour) or whose declared target exceeds 256 MiB are outside the domain")
 	c.Assume("base and target objects are blobs; pack entries are zlib streams whose inflated size equals the entry header (pack-level malformations belong to C07/C09)")
